@@ -1409,4 +1409,18 @@ Proof.
     destruct (fire_tenv (EvGetV vo vk) h2) as (o3 & h3 & E3). rewrite E3 in *. inversion E; subst. eauto.
 Qed.
 
+
+(** ** Assigned before read (C06 in the core semantics): what the rewritten expression does -- its outcome and the history it
+    leaves -- does not depend on what the temporaries held when it started, from any counter value: every temporary it
+    reads it has assigned before.  (A corollary of [rw_correct]: both runs are equal to the source's.) *)
+Theorem rw_ignores_initial_temporaries e : src e -> forall c (h : hist) (t1 t2 : tenv),
+  fst (eval (fst (rw e c)) (h, t1)) = fst (eval (fst (rw e c)) (h, t2)) /\
+  fst (snd (eval (fst (rw e c)) (h, t1))) = fst (snd (eval (fst (rw e c)) (h, t2))).
+Proof.
+  intros Hs c h t1 t2. destruct (src_tenv e Hs h t1) as (o & h' & E).
+  destruct (rw_correct e Hs c h t1) as (_ & K1). destruct (K1 o h' E) as (t1' & E1 & _).
+  destruct (rw_correct e Hs c h t2) as (_ & K2). destruct (K2 o h' E) as (t2' & E2 & _).
+  rewrite E1, E2. split; reflexivity.
+Qed.
+
 End Proofs.
